@@ -1,11 +1,13 @@
 (** C07 — One ObjectSet per template, with unique, increasing revision numbers. Statements only.
     [hash] is ANY function (template digest, collision count) -> name; [slices]/[sliceaware]/[rev0ok] select the
     variant of the code (see Deployment.v); histories range over template edits (reverts, no-ops), pause and limit
-    edits, deployment passes with an API fault at any request, revision reconciler passes, arbitrary status
-    changes of ObjectSets, disappearance of deleted ObjectSets, probe changes.  [ok_step] excludes only a stale List. *)
+    edits, deployment passes with an API fault at any request, full passes of the ObjectSet controller (ObjectSet.v),
+    revision reconciler passes, arbitrary status changes of ObjectSets, disappearance of deleted ObjectSets, probe
+    changes.  [ok_step] excludes only a deployment pass with a stale List. *)
 From Coq Require Import List NArith ZArith Bool.
 Local Open Scope N_scope.
 From PKO Require Import Base Owner Api Phase ObjectSet Deployment DeploymentProofs.
+From PKOCorr Require Import DeployCorr C08Corr C07Corr.
 Import ListNotations.
 
 (** No two ObjectSets of a deployment share a non-zero revision: over all histories with fresh Lists. *)
@@ -137,11 +139,19 @@ Theorem C07_exactly_one_repaired_witness :
 Proof. exact wit_stale_repaired. Qed.
 Print Assumptions C07_exactly_one_repaired_witness.
 
+(** The creation monitors of the correspondence check accept every pass of the model (fresh List). *)
+Theorem C07_monitor_sound :
+  forall hash fault slices sliceaware rev0ok w w' evs r,
+    NoDup (map sname (dw_sets w)) -> dep_pass hash fault slices sliceaware rev0ok false w = (w', evs, r) ->
+    m07_spec (state_of w) (obs_of w' evs r) = true /\ m07_prev (state_of w) (obs_of w' evs r) = true.
+Proof. exact monitor_sound_create. Qed.
+Print Assumptions C07_monitor_sound.
+
 (** Non-vacuity: the invariant holds in a world with an earlier revision, a fresh history from it creates an
     ObjectSet, and the template is matched afterwards. *)
 Example C07_inv_satisfiable : Inv wit_w0.
 Proof. exact wit_w0_inv. Qed.
-Example C07_history_ok : Forall ok_step [SDep false None; SDep false None; SRev 100; SDep false None; SEdit 3 tmpl3; SStat 100 [] [] false].
+Example C07_history_ok : Forall ok_step [SDep false None; SDep false None; SSet false 100; SRev 100; SDep false None; SEdit 3 tmpl3; SStat 100 [] [] false].
 Proof. repeat constructor. Qed.
 Example C07_fresh_creates_one :
   count_creates wit_hash no_slices false false wit_w0 [SDep false None; SDep false None; SRev 100; SDep false None] = 1%nat.
